@@ -60,7 +60,16 @@ SIMPLE = {      # name -> (XSD type, valid literals used by the enumerator, memb
     'pcode': ('pcode', ('AB1',), lambda v: bool(re.fullmatch(r'[A-Z]{2}[0-9]', v))),
     'plist': ('plist', ('1 2',), lambda v: bool(re.fullmatch(r'[0-9]+( [0-9]+)*', v))
               and all(_is_int(x) for x in v.split(' '))),
+    # union(xs:int, xs:date) whose members both fail to *decode* BAD; the same restricted by a pattern; a union
+    # with xs:NCName; the literals of 'nd' and 'ion' do not match the pattern of 'stamp'
+    'nd': ('nd', ('2020-02-29Z',), lambda v: _is_int(v) or _is_date(v)),
+    'stamp': ('stamp', ('2020-02-29',), lambda v: bool(re.fullmatch(r'[0-9\-]+', v)) and (_is_int(v) or _is_date(v))),
+    'ion': ('ion', ('abc',), lambda v: _is_int(v) or bool(re.fullmatch(r'[A-Za-z_][A-Za-z0-9_.\-]*', v))),
 }
+LEAK_XSD = ('<xs:simpleType name="nd"><xs:union memberTypes="xs:int xs:date"/></xs:simpleType>'
+            '<xs:simpleType name="stamp"><xs:restriction base="nd"><xs:pattern value="[0-9\\-]+"/></xs:restriction>'
+            '</xs:simpleType>'
+            '<xs:simpleType name="ion"><xs:union memberTypes="xs:int xs:NCName"/></xs:simpleType>')
 UNION_XSD = ('<xs:simpleType name="sizeName"><xs:restriction base="xs:token"><xs:enumeration value="small"/>'
              '<xs:enumeration value="large"/></xs:restriction></xs:simpleType>'
              '<xs:simpleType name="uw"><xs:union memberTypes="xs:positiveInteger sizeName"/></xs:simpleType>'
@@ -192,6 +201,12 @@ def _specs():
     g = E('g', CT(seq(m, E('note', INT1, 0, 1)), [A('lang', INT1, inheritable=True)]))
     add('G14-inheritable', E('r', CT(seq(g, E('z', INT1, 0, 1)), [A('top', INT1, inheritable=True)])), version='1.1',
         note='XSD 1.1 inheritable attributes, nested scopes')
+    # G15: a pattern-restricted union whose members all fail to decode a bad value, used by repeated sibling
+    # elements and attributes and followed by other union-typed values that do not match its pattern
+    ND, STAMP, ION = S('nd'), S('stamp'), S('ion')
+    rec = E('rec', CT(seq(E('when', STAMP), E('ref', ION), E('cnt', INT1, 0, 1)), [A('by', ION), A('at', STAMP)]), 1, 2)
+    add('G15-unionleak', E('r', CT(seq(rec, E('last', ND, 0, 1)))), types=LEAK_XSD,
+        note='pattern-restricted union(int, date) followed by other unions')
     return out
 
 
